@@ -64,6 +64,7 @@ func targets(codec string) []target {
 		{"obiconvert:file-forced-format", "obiconvert", []string{"--FORMAT"}, false, ""},
 		{"obiconvert:two-files", "obiconvert", nil, false, "two-files"},
 		{"obiconvert:two-files-forced-format", "obiconvert", []string{"--FORMAT"}, false, "two-files"},
+		{"obiconvert:two-compressed-files", "obiconvert", nil, false, "two-compressed-files"},
 	}
 	if codec == "gzip" {
 		// the stdin path goes through zlib (kseq): plain and gzip only
@@ -97,6 +98,9 @@ func runCmd(c *core.Ctx, t target, path string) cmdx.Res {
 		switch t.extra {
 		case "two-files":
 			args = append(args, okFileFor(path), path)
+		case "two-compressed-files":
+			// an intact file of the same codec is read first (decoder state must not leak from file to file)
+			args = append(args, okFileFor(path)+gen.CodecExt(codecOfPath(path)), path)
 		case "paired":
 			// the damaged file is the mate file; the forward file (same records, intact) is given by name
 			args = append(args, "--paired-with", path, "-o", path+".out.fastq", pairedFileFor(path))
@@ -105,6 +109,15 @@ func runCmd(c *core.Ctx, t target, path string) cmdx.Res {
 		}
 	}
 	return cmdx.Run(filepath.Join(c.BinDir, t.bin), args, opt)
+}
+
+func codecOfPath(path string) string {
+	for _, cd := range gen.Codecs {
+		if strings.HasSuffix(path, gen.CodecExt(cd)) {
+			return cd
+		}
+	}
+	return "gzip"
 }
 
 // pairedFileFor: the intact, uncompressed forward file written next to a damaged mate file.
@@ -195,8 +208,13 @@ func runTruncate(c *core.Ctx, codec string) {
 		defer os.Remove(base + ".out_R2.fastq")
 		defer os.Remove(base + ".out.fastq")
 	}
-	os.WriteFile(okFileFor(base), seqText(c.Rng, 5, fastq), 0o644)
+	okText := seqText(c.Rng, 5, fastq)
+	os.WriteFile(okFileFor(base), okText, 0o644)
 	defer os.Remove(okFileFor(base))
+	if okComp, err := gen.Compress(codec, okText); err == nil {
+		os.WriteFile(okFileFor(base)+gen.CodecExt(codec), okComp, 0o644)
+		defer os.Remove(okFileFor(base) + gen.CodecExt(codec))
+	}
 	// sanity: the intact file must be accepted
 	os.WriteFile(base, comp, 0o644)
 	for _, t := range tg {
@@ -314,6 +332,22 @@ func runTruncateBig(c *core.Ctx) {
 		n = 15000 + c.Rng.Intn(3000)
 	}
 	text := seqText(c.Rng, n, fastq)
+	if c.Idx%3 == 2 {
+		// long reads: a dozen records of 70-300 kb each (the first record alone is larger than a
+		// 64 KiB look-ahead)
+		n = 8 + c.Rng.Intn(8)
+		var sb strings.Builder
+		for i := 0; i < n; i++ {
+			l := 70000 + c.Rng.Intn(230000)
+			seq := gen.DNA(c.Rng, l)
+			if fastq {
+				fmt.Fprintf(&sb, "@read%d {\"count\":1}\n%s\n+\n%s\n", i, seq, strings.Repeat("I", l))
+			} else {
+				fmt.Fprintf(&sb, ">read%d {\"count\":1}\n%s\n", i, seq)
+			}
+		}
+		text = []byte(sb.String())
+	}
 	comp, err := gen.Compress(codec, text)
 	if err != nil {
 		c.Inconclusive("cannot compress: " + err.Error())
@@ -459,6 +493,12 @@ func runBitflip(c *core.Ctx, codec string) {
 	if fastq {
 		base = filepath.Join(c.Dir, fmt.Sprintf("b%d.fastq%s", c.Idx, gen.CodecExt(codec)))
 	}
+	// the damaged file read after an intact file of the same codec
+	if okComp, err := gen.Compress(codec, seqText(c.Rng, 5, fastq)); err == nil {
+		tgs = append(tgs, target{"obiconvert:two-compressed-files", "obiconvert", nil, false, "two-compressed-files"})
+		defer os.Remove(okFileFor(base) + gen.CodecExt(codec))
+		os.WriteFile(okFileFor(base)+gen.CodecExt(codec), okComp, 0o644)
+	}
 	os.WriteFile(base, comp, 0o644)
 	intact := make([]cmdx.Res, len(tgs))
 	for i, t := range tgs {
@@ -483,6 +523,12 @@ func runBitflip(c *core.Ctx, codec string) {
 		}
 		for i := 0; i < c.Pick(30, 300); i++ {
 			flips = append(flips, c.Rng.Intn(nbits))
+		}
+		if codec == "xz" && nbits > 13*8 {
+			// the size byte of the first block header (byte 12 of an xz stream), every bit
+			for b := 12 * 8; b < 13*8; b++ {
+				flips = append(flips, b)
+			}
 		}
 	}
 	for fi, b := range flips {
